@@ -20,6 +20,9 @@ type vTransport struct {
 	faultNewMessage                  bool // NewMessage may fail (nondeterministically, per call)
 	faultSend                        bool // send may fail
 	lastWhich                        []rpccp.Message_Which
+	returnIDs                        []uint32
+	releaseIDs, releaseCounts        []uint32
+	delivered                        []rpccp.Message_Which // messages whose send succeeded
 	conn                             *Conn
 }
 
@@ -42,12 +45,26 @@ func (t *vTransport) NewMessage(ctx context.Context) (rpccp.Message, func() erro
 	send := func() error {
 		t.sends++
 		t.lastWhich = append(t.lastWhich, msg.Which())
+		rid := uint32(0)
+		if msg.Which() == rpccp.Message_Which_return {
+			if r, err := msg.Return(); err == nil {
+				rid = r.AnswerId()
+			}
+		}
+		t.returnIDs = append(t.returnIDs, rid)
+		if msg.Which() == rpccp.Message_Which_release {
+			if r, err := msg.Release(); err == nil {
+				t.releaseIDs = append(t.releaseIDs, r.Id())
+				t.releaseCounts = append(t.releaseCounts, r.ReferenceCount())
+			}
+		}
 		if t.conn != nil {
 			vAssert(vLocksHeld() == 0, "C09.transport.send-called-without-conn-mutex")
 		}
 		if t.faultSend && vNondetBool() {
 			return vFault{}
 		}
+		t.delivered = append(t.delivered, msg.Which())
 		return nil
 	}
 	release := func() { t.releases++ }
@@ -99,5 +116,19 @@ func vIsDone(ctx context.Context) bool {
 		return true
 	default:
 		return false
+	}
+}
+
+// capnpSend: a call with an empty parameter struct whose PlaceArgs may fail
+func capnpSend(placeFails bool) capnp.Send {
+	return capnp.Send{
+		Method:   capnp.Method{InterfaceID: 1, MethodID: 2},
+		ArgsSize: capnp.ObjectSize{DataSize: 8},
+		PlaceArgs: func(s capnp.Struct) error {
+			if placeFails {
+				return vFault{}
+			}
+			return nil
+		},
 	}
 }
